@@ -87,7 +87,7 @@ def rw_jobs(prop, stress_runs, patterns, stress_args=(), pattern_args=(), varian
 RW_FIELDS = ('runs', 'patterns', 'sections', 'reads', 'writes', 'parks', 'maxReaders', 'batches2', 'windowHits',
              'idleAsleepHits', 'runsWithHit', 'pairsLive', 'pairsWW', 'pairsWR', 'pairsRW', 'maxQueue', 'idleProbes',
              'readersNoWriter', 'readerParksJudged', 'rendezvous', 'rendezvousReaders', 'predictedParks',
-             'predictedFast', 'lateArrivalPatterns', 'lateArrivals', 'sectionsNestedInOtherResource', 'recursiveReadLocks', 'queuesDeeperThan64', 'readerCrowdsOver255', 'marathonRequests', 'marathonReleasesWithQueue', 'delaysAfterWake', 'delaysCondEntry', 'delaysOther', 'condWaits')
+             'predictedFast', 'lateArrivalPatterns', 'lateArrivals', 'sectionsNestedInOtherResource', 'recursiveReadLocks', 'queuesDeeperThan64', 'readerCrowdsOver255', 'marathonRequests', 'marathonReleasesWithQueue', 'spuriousWakeupsInjected', 'delaysAfterWake', 'delaysCondEntry', 'delaysOther', 'condWaits')
 
 
 def rw_evidence(rule):
